@@ -2,3 +2,7 @@
 import EcModel.Basic
 import EcModel.Generated.Consts
 import EcModel.Frame
+import EcModel.Props.C09
+import EcModel.Props.C19
+import EcModel.Props.C08
+import EcModel.Props.C20
